@@ -135,7 +135,14 @@ func (ls *Leadership) Check() bool {
 // the transaction can be executed only if the server is leader.
 func (ls *Leadership) LeaderTxn(cs ...clientv3.Cmp) clientv3.Txn {
 	txn := kv.NewSlowLogTxn(ls.client)
-	return txn.If(append(cs, ls.leaderCmp())...)
+	cs = append(cs, ls.leaderCmp())
+	// The leader key is attached to the lease of the campaign that created it. Comparing
+	// the lease as well keeps a delayed transaction of an earlier term of this member
+	// (same leader value) from being applied in a later term.
+	if l := ls.getLease(); l != nil && l.ID != clientv3.NoLease {
+		cs = append(cs, clientv3.Compare(clientv3.LeaseValue(ls.leaderKey), "=", l.ID))
+	}
+	return txn.If(cs...)
 }
 
 func (ls *Leadership) leaderCmp() clientv3.Cmp {
